@@ -70,6 +70,30 @@ def _field_stores(P, relfile):
     return out
 
 
+def _is_accessor(g):
+    """a helper whose body is a single `return <expression>;` (a named sub-expression of its callers)"""
+    try:
+        kids = [x for x in g.body.c if x is not None]
+        return len(kids) == 1 and kids[0].k == "ReturnStmt"
+    except Exception:
+        return False
+
+
+def _canon_for(P, fn):
+    """Canon of fn with same-file accessors read as the expressions they stand for"""
+    memo = P.__dict__.setdefault("_memo", {}).setdefault("arrays_canon", {})
+    k = (fn.file, fn.name)
+    if k not in memo:
+        cz = None
+        if any(c.callee and any(g.static and g.file == fn.file and _is_accessor(g) for g in P.by_name.get(c.callee, [])) for c in fn.calls()):
+            try:
+                cz = Canon(P.inlined(fn, 2))
+            except Exception:
+                cz = None
+        memo[k] = cz or Canon(fn)
+    return memo[k]
+
+
 def file_invariants(P, relfile):
     """{base-stripped canonical expr over struct members: smallest K} from validation guards
     `E > K` / `E >= K` with an error exit.
@@ -85,7 +109,7 @@ def file_invariants(P, relfile):
     for fn0 in P.funcs_in(relfile):
         # helpers are expanded: a validation written as `if (!geometry_is_valid(dec->a, dec->b)) return ERR;`
         # contributes the rejections of the predicate, spelled over the caller's members
-        fn = P.inlined(fn0, 2) if any(c.callee and any(g.static and g.file == fn0.file and (g.ret or "").strip() in ("_Bool", "bool")
+        fn = P.inlined(fn0, 2) if any(c.callee and any(g.static and g.file == fn0.file and ((g.ret or "").strip() in ("_Bool", "bool") or _is_accessor(g))
                                                       for g in P.by_name.get(c.callee, [])) for c in fn0.calls()) else fn0
         cz = Canon(fn)
         for n in fn.body.walk():
@@ -205,7 +229,15 @@ def check(ctx, fns, rule="R4.array", key_prefix="array-index", field_consts=None
         if rf not in invs:
             invs[rf] = file_invariants(P, rf)
         inv = invs[rf]
-        cz = Canon(fn)
+        # accessors of the same file (`mini_block_size(dec)` for `dec->block_size / dec->mini_blocks_per_block`) are read
+        # as the expression they stand for
+        if any(c.callee and any(g.static and g.file == fn.file and _is_accessor(g) for g in P.by_name.get(c.callee, [])) for c in fn.calls()):
+            try:
+                cz = Canon(P.inlined(fn, 2))
+            except Exception:
+                cz = Canon(fn)
+        else:
+            cz = Canon(fn)
         for node in fn.body.walk():
             if node.k != "ArraySubscriptExpr":
                 continue
@@ -550,8 +582,8 @@ def field_upper_bounds(P, relfiles, record, inv=None):
         for fn, n, kind in sts:
             if kind == "=" and n.c[1].cv is not None:
                 mx = max(mx, n.c[1].cv)
-            elif kind == "=" and inv is not None and strip_base(Canon(fn)(n.c[1])) in inv:
-                mx = max(mx, inv[strip_base(Canon(fn)(n.c[1]))])
+            elif kind == "=" and inv is not None and strip_base(_canon_for(P, fn)(n.c[1])) in inv:
+                mx = max(mx, inv[strip_base(_canon_for(P, fn)(n.c[1]))])
             elif kind == "--":
                 pass
             elif kind == "++":
